@@ -139,6 +139,15 @@ func init() {
 					c := d.SliceDecoder(atoi(p[1]), atoi(p[2]))
 					stack = append(stack, c)
 					out = append(out, fmt.Sprintf("[%d", c.BaseOffset()))
+				case "len":
+					out = append(out, fmt.Sprintf("L%d", d.Length()))
+				case "hd":
+					var h ofbase.Header
+					if err := h.Decode(d); err != nil {
+						out = append(out, "err")
+					} else {
+						out = append(out, fmt.Sprintf("H%d.%d.%d.%d", h.Version, h.Type, h.Length, h.Xid))
+					}
 				case "up":
 					if len(stack) < 2 {
 						panic("up")
@@ -299,7 +308,24 @@ func init() {
 			c.run("bhdr", hx(b), c.rng.Intn(len(b)+1))
 		}
 		// raw decoder scripts incl. short buffers, spare capacity, nested slicing up to depth 4
-		rops := []string{"b", "h", "w", "q", "x", "r:3", "r:0", "a", "s:1", "s:5", "sl:8:0", "sl:12:4", "sl:6:2", "sl:20:0", "up"}
+		// a header (or the remaining length) asked for when the position is at, near or PAST the end of the data: the
+		// data is consumed entirely, an alignment skip / a skip moves past the end, then Length() and Header.Decode
+		for n := 0; n <= 40; n++ {
+			b := make([]byte, n)
+			c.rng.Read(b)
+			for _, tailOps := range []string{"len,hd", "a,len,hd", "s:3,len,hd", "a,hd,len", "s:9,a,len,hd,hd"} {
+				s := tailOps
+				if n > 0 {
+					s = fmt.Sprintf("r:%d,%s", n, tailOps)
+				}
+				c.run("bdec", hx(b), n, s)
+				if n >= 9 {
+					c.run("bdec", hx(b), n, fmt.Sprintf("r:%d,%s", n-9, tailOps)) // a whole header is left: it decodes
+					c.run("bdec", hx(b), n, fmt.Sprintf("sl:%d:0,r:%d,%s", n-2, n-2, tailOps))
+				}
+			}
+		}
+		rops := []string{"b", "h", "w", "q", "x", "r:3", "r:0", "a", "s:1", "s:5", "sl:8:0", "sl:12:4", "sl:6:2", "sl:20:0", "up", "len", "hd"}
 		m := 6000
 		if c.thorough() {
 			m = 200000
